@@ -124,3 +124,92 @@ def c06_bytewise(tier='quick', seed=0):
             raise RuntimeError('prelude law xor_zero does not conform')
     return {'obligations': [_ob('bounded/C06/bytewise-helpers', bad is None, {'failing': repr(bad)})],
             'bounded': {'what': 'xor, or_bytes, and_bytes == byte-wise op', 'bound': f'all 1-byte pairs; {n} cases'}}
+
+
+def c19_history(tier='quick', seed=0):
+    """bounded-exhaustive histories over the registries (plugins x scopes, contracts, aliases, compile):
+    the active entries are exactly those added and not since removed / reset; a run uses an entry iff
+    it is active; compile results do not depend on earlier compilations.  Runs in a subprocess per
+    history batch so that process-global registries start clean."""
+    import itertools
+    import subprocess
+    import json
+    depth = 4 if tier == 'quick' else 5
+    code = r'''
+import sys, itertools, json
+sys.path.insert(0, sys.argv[1])
+import tapescript.functions as F
+import tapescript as ts
+depth = int(sys.argv[2])
+calls = []
+P = [lambda t, s, c, i=i: calls.append(i) for i in range(3)]
+scopes = ['signature_extensions', 'check_template']
+acts = [('add', p, s) for p in range(3) for s in range(2)] + [('rem', p, s) for p in range(3) for s in range(2)] + \
+       [('reset', 0, s) for s in range(2)]
+bad = None
+n = 0
+probe = ts.compile_script('msg x00')
+for h in itertools.product(range(len(acts)), repeat=depth):
+    for s in scopes:
+        F._plugins[s] = []
+    model = {0: [], 1: []}
+    for a in h:
+        k, p, s = acts[a]
+        if k == 'add':
+            F.add_plugin(scopes[s], P[p])
+            if p not in model[s]:
+                model[s].append(p)
+        elif k == 'rem':
+            F.remove_plugin(scopes[s], P[p])
+            if p in model[s]:
+                model[s].remove(p)
+        else:
+            F.reset_plugins(scopes[s])
+            model[s] = []
+    n += 1
+    got = [[P.index(f) for f in F._plugins[s]] for s in scopes]
+    if got != [model[0], model[1]] and bad is None:
+        bad = {'history': [acts[a] for a in h], 'active': got, 'expected': [model[0], model[1]]}
+    if n % 97 == 0:
+        calls.clear()
+        ts.run_script(probe, {'sigfield1': b'a'})
+        if sorted(calls) != sorted(model[0]) and bad is None:
+            bad = {'history': [acts[a] for a in h], 'ran': list(calls), 'expected': model[0]}
+for s in scopes:
+    F._plugins[s] = []
+# compile: result independent of what was compiled before (macros, variables, comptime)
+srcs = ['!= m [ a ] { push a } !m [ d1 ]', 'push d1', '@= x [ d2 ] @x', 'push ~ { push d3 }', 'if { true } else { false }']
+alone = {s: ts.compile_script(s) for s in srcs}
+for perm in itertools.permutations(srcs, 3):
+    for s in perm:
+        n += 1
+        if ts.compile_script(s) != alone[s] and bad is None:
+            bad = {'compile-history': list(perm), 'source': s}
+try:
+    ts.compile_script('!m [ d1 ]')
+    if bad is None:
+        bad = {'macro leaked across compile_script calls': '!m [ d1 ]'}
+except BaseException:
+    pass
+# caller dictionaries are not modified by run_script / run_auth_scripts
+cv, ct, pl = {'sigfield1': b'a'}, {}, {'signature_extensions': []}
+snap = (dict(cv), dict(ct), {k: list(v) for k, v in pl.items()})
+ts.run_script(ts.compile_script('true return'), cv, ct, plugins=pl)
+ts.run_auth_scripts([ts.compile_script('true')], cv, ct, pl)
+if (cv, ct, pl) != snap and bad is None:
+    bad = {'caller dict modified': repr((cv, ct, pl))}
+print('RESULT ' + json.dumps({'n': n, 'bad': bad}, default=str))
+'''
+    repo = os.environ.get('VERIF_REPO', '/repo')
+    p = subprocess.run([sys.executable, '-c', code, repo, str(depth)], capture_output=True, text=True, timeout=3000)
+    res = None
+    for line in p.stdout.splitlines():
+        if line.startswith('RESULT '):
+            res = json.loads(line[7:])
+    if res is None:
+        raise RuntimeError('c19_history harness failed: ' + (p.stderr or '')[-800:])
+    return {'obligations': [_ob('bounded/C19/registry-histories', res['bad'] is None, res['bad'])],
+            'bounded': {'what': 'plugin registry histories over {add, remove, reset} x 3 plugins x 2 scopes; '
+                                'compile history independence; caller dictionaries unmodified',
+                        'bound': f'all histories of length {depth} ({res["n"]} cases incl. compile permutations)',
+                        'exhaustive_up_to_bound': True}}
